@@ -66,6 +66,11 @@ func (coordC13) Check(w *coordWorld, st *coordStep) []xstate.Violation {
 			}
 		}
 	case "join", "rejoin":
+		if st.Reissued != 0 {
+			// a new client was handed the id of another client of this history: from now on the coordinator
+			// cannot tell the two apart, so the earlier one's requests are no longer fenced
+			out = append(out, coordViol("member-id-reissued-to-new-client", "%s was answered with member id %s, which was issued before in this history to %s: that member's (id, generation) pairs are accepted again", st.Ev, r.Member, coordMemberName(int8(st.Reissued))))
+		}
 		if r.Panic == "" && r.GoErr == "" && r.Err != protocol.UNKNOWN_SERVER_ERROR && w.led.HasGen && st.Pre.Exists && r.Gen < w.led.MaxGen {
 			key := "generation-decreased"
 			if w.led.Failovers > 0 && !st.Pre.Loaded {
@@ -84,7 +89,7 @@ func (coordC13) Check(w *coordWorld, st *coordStep) []xstate.Violation {
 
 func TestVerifC13(t *testing.T) {
 	coordRunCheck(t, "C13", func() coordOracle { return coordC13{} },
-		"BFS over all event histories (join/rejoin/sync/heartbeat/commit/leave/advance/failover events; commit, heartbeat and sync also from departed and never-issued member ids and with generation current-1) up to the depth bound, states merged by canonical key, every transition executed on the real GroupCoordinator; judged on every transition: a commit/heartbeat/sync whose member id is not in the group or whose generation is not the current one gets an error code and leaves every committed offset unchanged; a commit/heartbeat/sync from a member whose session lapsed more than a cleanup interval ago (no failover in the history) is not accepted; generations in JoinGroup replies never decrease within one life of the group. distinct = distinct (store, event, reply, state change) observations; non-trivial = error code or observable change",
+		"BFS over all event histories (join/rejoin/sync/heartbeat/commit/leave/advance/failover events; commit, heartbeat and sync also from departed and never-issued member ids and with generation current-1) up to the depth bound, states merged by canonical key, every transition executed on the real GroupCoordinator; judged on every transition: a commit/heartbeat/sync whose member id is not in the group or whose generation is not the current one gets an error code and leaves every committed offset unchanged; a commit/heartbeat/sync from a member whose session lapsed more than a cleanup interval ago (no failover in the history) is not accepted; a JoinGroup without member id is never answered with an id issued earlier in the history (across failovers too); generations in JoinGroup replies never decrease within one life of the group. distinct = distinct (store, event, reply, state change) observations; non-trivial = error code or observable change",
 		[]string{"sequential histories only: the schedule dimension of C13 (OffsetCommit validating under the lock and writing after it) is a separate check",
 			"a member that is in the group and presents the current generation number counts as current even if it has not rejoined yet (Kafka accepts such commits too)"})
 }
